@@ -5,13 +5,12 @@ REVERT("revert-muxpanic-sorted", "C06", "fire D1", "13e92da", "pre-fix tree: mux
 REVERT("revert-constdefs-order", "C06", "fire D1", "b61eb1a", "pre-fix tree: const defs bound in HashMap order while reading Env")
 M("structlit-hash-order", "C06", "fire D1", "src/compile.rs",
   """                for (field_name, _) in struct_def.fields.iter() {
-                    let value = fields.get(field_name).unwrap();
-                    wires.extend(value.compile(prg, env, circuit));
+                    wires.extend(fields.remove(field_name).unwrap());
                 }""",
   """                let _ = struct_def;
                 for (_, value) in fields.iter() {
-                    wires.extend(value.compile(prg, env, circuit));
-                }""", "struct literal fields lowered in HashMap order")
+                    wires.extend(value.iter().copied());
+                }""", "struct literal fields laid out in HashMap order")
 M("systemtime-in-compile-block", "C06", "fire D3", "src/compile.rs",
   """    env.push();
     let mut expr = vec![];""",
@@ -2059,6 +2058,13 @@ M("s4-b-rows-not-truncated", "C05", "fire S4", "src/compile.rs",
   """        let tag_b = b.remove(join_ty_size);""", "seed C05-b: rows of b keep the padding")
 
 # ---------------------------------------------------------------- C01
+REVERT("revert-struct-literal-source-order", "C01", "fire V4", "32ed1a6", "pre-fix tree: struct literal fields sorted by the parser and evaluated in definition order")
+M("v4-parser-sorts-struct-literals-again", "C01", "fire V4", "src/parse.rs",
+  """                        if only_literal_children {
+                            // (a literal value has its fields in a canonical order)
+                            fields.sort_by(|(f1, _), (f2, _)| f1.cmp(f2));
+                        }""",
+  """                        fields.sort_by(|(f1, _), (f2, _)| f1.cmp(f2));""", "written order of the fields lost in the parser")
 REVERT("revert-foreach-per-element", "C01", "fire V3", "fb2511c", "pre-fix tree: for-each counts groups of wires, zero-sized elements never iterate")
 M("v3-quiet-foreach-index", "C01", "quiet", "src/compile.rs",
   """                    let Some(binding) = array.get(i..i + elem_in_bits) else {
